@@ -173,6 +173,12 @@ func main() {
 			notes = append(notes, key+": "+n)
 		}
 	}
+	{
+		vc := g.theoryConsistency()
+		for _, o := range vc.obls {
+			items = append(items, oblItem{vc, o})
+		}
+	}
 	if *only == "" {
 		for _, ax := range cs.Axioms {
 			if !ax.Lemma {
